@@ -237,6 +237,22 @@ func registerVrt(e *engine) {
 		hi := new(big.Int).Sub(new(big.Int).Lsh(big.NewInt(1), uint(8*nb)), big.NewInt(1))
 		return newBigPtr(m.newIntVar(name, big.NewInt(0), hi, "int"))
 	})
+	e.reg(vrtPath+"Dyadic", func(fr *frame, fn *ssa.Function, a []value) value {
+		m := fr.m
+		name := argStr(fr, a[0])
+		fb := int(m.concInt(a[1], "vrt.Dyadic fracBits"))
+		maxAbs := m.concInt(a[2], "vrt.Dyadic maxAbs")
+		den := int64(1) << uint(fb)
+		if m.concrete != nil {
+			v := m.feedVar(name)
+			if v == nil {
+				return float64(0)
+			}
+			return float64(v.Int64()) / float64(den)
+		}
+		t := m.newIntVar(name, big.NewInt(-maxAbs*den), big.NewInt(maxAbs*den), "int")
+		return &SymFloat{num: t, den: den}
+	})
 	e.reg(vrtPath+"Choice", func(fr *frame, fn *ssa.Function, a []value) value {
 		m := fr.m
 		n := int(m.concInt(a[1], "vrt.Choice n"))
